@@ -22,7 +22,8 @@ Local Open Scope N_scope.
 (** ** names, files, sources *)
 
 (** config resources (the keys of __build_info/timestamps) *)
-Inductive rname := RDefault | RDefaultCustom | RSchema (x : N) | RCustom (x : N).
+Inductive rname := RDefault | RDefaultCustom | RSchema (x : N) | RCustom (x : N) | ROther (n : N).
+(** [ROther]: any further resource the config compiler loads (__include / __patch of another file) *)
 Inductive fname := FRes (r : rname) | FDict (d : N) | FVocab (v : N).
 
 Record fver := mkver { fv_cid : N; fv_mtime : N }.
@@ -36,6 +37,7 @@ Definition rname_eqb (a b : rname) : bool :=
   | RDefaultCustom, RDefaultCustom => true
   | RSchema x, RSchema y => x =? y
   | RCustom x, RCustom y => x =? y
+  | ROther x, ROther y => x =? y
   | _, _ => false
   end.
 
@@ -129,14 +131,18 @@ Variable cyid : cyaml -> N.
 Variable list_of : cyfrom -> list N.          (* schema_list of a compiled default *)
 Variable info_of : cyfrom -> schema_info.     (* what a compiled schema says *)
 Variable dinfo_of : N -> dict_info.           (* header of a dictionary file *)
+(** the resources the config compiler loads when it compiles target [t] from the
+    sources [s] (the root file, its auto-patch, and whatever they __include /
+    __patch, transitively): BuildInfoPlugin records exactly these *)
+Variable deps_fn : srcs -> option N -> list rname.
 
 (** *** compiled configs: build_info_plugin.cc, ConfigNeedsUpdate *)
 
 Definition res_of (t : option N) : rname :=
   match t with None => RDefault | Some x => RSchema x end.
 
-(** resources a compiled config is built from (validated by the harness
-    against the keys of __build_info/timestamps) *)
+(** the dependency set of a workspace without further includes (used by the
+    concrete examples) *)
 Definition deps_of (t : option N) : list rname :=
   match t with
   | None => [RDefault; RDefaultCustom]
@@ -147,8 +153,8 @@ Definition ts_of (v : option fver) : N :=
   match v with Some f => fv_mtime f | None => 0 end.
 
 Definition build_config (s : srcs) (t : option N) : cyaml :=
-  {| cy_ts := map (fun r => (r, ts_of (lookup s (FRes r)))) (deps_of t);
-     cy_from := map (fun r => (r, lookup s (FRes r))) (deps_of t) |}.
+  {| cy_ts := map (fun r => (r, ts_of (lookup s (FRes r)))) (deps_fn s t);
+     cy_from := map (fun r => (r, lookup s (FRes r))) (deps_fn s t) |}.
 
 (** ConfigNeedsUpdate: any recorded entry whose source vanished (recorded
     time non-zero), appeared or changed *)
